@@ -32,14 +32,12 @@ P.assume("user callbacks (heartbeat, collision resolve, pre/post_timestep_modifi
          "exact_finish_time (frame of the library code itself: task stepcontract.frame)")
 P.assume("reb_simulation_error_message_waiting is modelled as an arbitrary 0/1 answer per call (errors may be queued during "
          "a step); task check_exit.error_waiting.* relate it to r->messages")
-P.trust("adaptive step contract (IAS15, BS, TRACE/MERCURIUS encounter sub-steps) is stated, not proved on their part2")
+# the adaptive step contract used by the integrate-loop tasks is proved on the real IAS15 / BS / MERCURIUS / TRACE part2 in C08_adaptive.py
 P.not_decided += [
     "floating-point coincidences (t+dt) vs tmax and the size of the rounding error of the last step (R-mode)",
     "termination of the loop for adaptive integrators (Zeno sequences of shrinking steps)",
     "PAUSED / SCREENSHOT / SINGLE_STEP waiting loops of reb_check_exit (need a second thread; C19)",
-    "adaptive step contract on the real IAS15 / BS / TRACE / MERCURIUS part2 (stated as trusted contract)",
-    "MERCURIUS, TRACE, EOS, WHFAST512 fixed-step contract on their real part2 (MERCURIUS/TRACE temporarily overwrite r->dt and "
-    "r->t in the encounter step and restore them: needs their sub-step loops under invariants)",
+    "EOS, WHFAST512 fixed-step contract on their real part2 (WHFAST512 is not compiled; MERCURIUS / TRACE are in C08_adaptive)",
     "bitwise equality of split integrations beyond: same number of steps, same dt value, prologue/epilogue frame "
     "(the step map itself is a deterministic function of the state: C02/C09)",
 ]
